@@ -101,7 +101,7 @@ func (m *Machine) smallCoinsRaw(dec bool, pairs []CoinPair) *CoinsV {
 	for _, p := range pairs {
 		M = Store(M, p.Denom, p.Amt)
 	}
-	return &CoinsV{Dec: dec, M: M, IsSmall: len(pairs) <= 1, Small: pairs}
+	return &CoinsV{Dec: dec, M: M, IsSmall: len(pairs) <= 1, Small: pairs, Raw: len(pairs) > 0}
 }
 
 var coinTypes = map[bool]types.Type{}
